@@ -15,7 +15,7 @@ def backup_name(opts, path):
 def run(R):
     if not R.build():
         return
-    R.lean(["C18", "C18Run", "C18RunDelete"])
+    R.lean(["C18", "C18Run", "C18RunDelete", "C18RunCreate"])
     import hunted
     hunted.run(R, "C18")
     quick = R.tier == "quick"
